@@ -38,7 +38,7 @@ MIN_HITS = {
         'mon:mean': 1500, 'mon:zero': 100, 'mon:nan': 1500, 'mon:hull': 500, 'mon:order': 500, 'mon:generator': 900,
         'mon:donation': 5000, 'mon:readonly': 300, 'mon:structure': 1500, 'mon:sum': 500, 'mon:aggstate': 300,
         'mon:clipnorm': 300, 'mon:clipdir': 300, 'mon:clipident': 100, 'jax-leaves': 100, 'np-leaves': 50,
-        'single-client': 20, 'clip-below': 50, 'clip-zero-tree': 5, 'hook:tree_mean': 2, 'class:many-trees': 15, 'class:int32-weights-total-above-2^31': 8, 'class:int32-leaves-in-one-client': 15,
+        'single-client': 20, 'clip-below': 50, 'clip-zero-tree': 5, 'hook:tree_mean': 2, 'class:many-trees': 15, 'class:int32-weights-total-above-2^31': 8, 'class:int32-leaves-in-one-client': 15, 'class:infinite-clip-bound': 10,
         'hook:tree_sum': 1, 'hook:tree_clip_by_global_norm': 1,
     },
     'thorough': {
@@ -555,6 +555,12 @@ def clip_case(ctx, mods, pool, rng):
     bclass = 'far-above' if bound > 100 * norm else 'above'
   typed = {'float': float(bound), 'np.float32': np.float32(bound), 'int': int(bound) if btype == 'int' else bound,
            'jax': jnp.asarray(bound, jnp.float32)}[btype]
+  if rng.rand() < 0.06:
+    # "no clipping": an infinite bound (or a Python float beyond the float32 range) -- every finite tree is below it
+    bound = float('inf')
+    bclass, btype = ('zero-tree' if norm == 0 else 'infinite'), ['float', 'np.float32', 'jax', 'float>f32max'][rng.randint(4)]
+    typed = {'float': float('inf'), 'np.float32': np.float32('inf'), 'jax': jnp.asarray(np.inf, jnp.float32), 'float>f32max': 1e40}[btype]
+    ctx.count('class:infinite-clip-bound')
   tree = materialise(jnp, rng, template, values, kind)
   wit = {'structure': describe(template), 'magnitude': mag, 'leaf_kind': kind, 'bound_class': bclass, 'bound_type': btype,
          'max_norm': bound, 'norm64': norm, 'leaves': values[:4]}
